@@ -172,6 +172,19 @@ func (w *rworld) onHandler(h int, si *network.ServerIdentity) {
 	}
 }
 
+// identitiesAtS counts the connections accepted by S whose identity message arrived.
+func (w *rworld) identitiesAtS() int {
+	n := 0
+	for _, e := range w.sched.Trace() {
+		if e.Point == "router.identityReceived" && len(e.Args) > 0 {
+			if r, ok := e.Args[0].(*network.Router); ok && r == w.S {
+				n++
+			}
+		}
+	}
+	return n
+}
+
 func (w *rworld) tabCount(p int) int {
 	return len(w.S.VerifConnList(w.peers[p].si.GetID()))
 }
@@ -246,7 +259,7 @@ func (w *rworld) curCount(p int) int32 {
 	return atomic.LoadInt32(pe.counts[len(pe.counts)-1])
 }
 
-func (w *rworld) exec(o opj) (int, bool, bool) {
+func (w *rworld) exec(o *opj) (int, bool, bool) {
 	switch o.K {
 	case "send":
 		before := w.curCount(o.P)
@@ -360,6 +373,7 @@ func (w *rworld) exec(o opj) (int, bool, bool) {
 			r, ok := args[0].(*network.Router)
 			return ok && r == pr
 		})
+		idBefore := w.identitiesAtS()
 		stopped := make(chan struct{})
 		go func() { pr.Stop(); close(stopped) }()
 		if !g.WaitHit(10 * time.Second) {
@@ -381,7 +395,11 @@ func (w *rworld) exec(o opj) (int, bool, bool) {
 		}
 		pe.up = false
 		pe.zombies++
-		return 0, false, !w.settle()
+		ok := w.settle()
+		// did the identity of that last dial reach S before the connection went away? (with the
+		// repaired router the stopping peer closes the connection at once: both orders happen)
+		o.Seen = w.identitiesAtS() > idBefore
+		return 0, false, !ok
 	case "restart":
 		pe := w.peers[o.P]
 		if pe.up {
@@ -510,7 +528,8 @@ func runReal(in input) lib.Case {
 	var ops, snaps []string
 	var hobs []map[string]interface{}
 	sends := 0
-	for _, o := range in.Ops {
+	for i := range in.Ops {
+		o := &in.Ops[i]
 		res, skip, to := w.exec(o)
 		s, h := w.snapshot(res, skip, to)
 		ops = append(ops, o.coq())
